@@ -17,6 +17,7 @@
 
 extern const char *mt_schedule;		/* schedule string (chars 0-9a-f), may be NULL */
 extern int mt_active;			/* baton scheduling in force */
+extern int mt_log_idle;			/* log "Iq <deadline>" whenever every thread is blocked and virtual time has to pass */
 
 int mt_self(void);			/* index of the calling thread */
 void mt_init(void);			/* called once by the main thread (index 0) */
@@ -37,7 +38,7 @@ void mt_raise(int sig, int thr);	/* make sig pending for thread thr (-1: process
 
 /* virtual child processes */
 int mt_new_child(void);
-void mt_child_status(int pid, int status);
+int mt_child_status(int pid, int status);	/* 1 = queued (SIGCHLD raised), 0 = dropped (unknown / reaped / queue full) */
 void mt_as_child(void (*fn)(void *), void *arg);
 int mt_sig_has_handler(int sig);
 void mt_deliver_now(int sig);		/* the calling thread receives sig now (Sd/Sx logged) */
